@@ -710,6 +710,16 @@ func doSelect(fr *frame, instr *ssa.Select) value {
 // drainGoroutines runs pending goroutine bodies to completion, each
 // atomically, in an engine-chosen order.
 func (x *pathCtx) drainGoroutines(i *interpreter) {
+	if x.gor != 0 {
+		// nested wait inside a goroutine body: run the children in order
+		for len(x.goq) > 0 {
+			g := x.goq[0]
+			x.goq = x.goq[1:]
+			g.f()
+		}
+		return
+	}
+	ran := false
 	for len(x.goq) > 0 {
 		k := 0
 		if x.schedAll {
@@ -717,6 +727,20 @@ func (x *pathCtx) drainGoroutines(i *interpreter) {
 		}
 		g := x.goq[k]
 		x.goq = append(x.goq[:k:k], x.goq[k+1:]...)
-		g()
+		x.schedOrder = append(x.schedOrder, g.id-1)
+		x.gor = g.id
+		func() {
+			defer func() { x.gor = 0 }()
+			g.f()
+		}()
+		ran = true
 	}
+	if ran {
+		x.checkRaces()
+	}
+}
+
+type pendingGo struct {
+	id int
+	f  func()
 }
